@@ -249,7 +249,7 @@ def run(chk):
         items = rnd.sample(items, 9000)
     elif len(items) > 400000:
         items = rnd.sample(items, 400000)
-    parts = pmap(_events, [(items[i::64], G, chk.seed * 601 + i) for i in range(64)])
+    parts = pmap(_events, [(items[i::64], G, chk.seed * 601 + i) for i in range(64)], empty=lambda: ([], []))
     evs = [e for p in parts for e in p[0]]
     pos_evs = [e for p in parts for e in p[1]]
     chk.validate("C07Trace", evs, shard=1500, label="chunk", keyfn=_key)
